@@ -1,4 +1,4 @@
-import CoapVerif.Lemmas.SchedInv
+import CoapVerif.Lemmas.Conserve
 /-
 C06, the simulation M ⊑ S without the two scope conditions of `Coap.Sim.step_sim` (NSTART room, nothing due at the
 instant of a submission / RST).
@@ -524,6 +524,11 @@ def tr (l : L) : Ev → List TEv
     if (l.getS s).sockOpen then
       .tickN l.now 0 :: .rst s mid :: (trRemoved l s mid ++ trDueLoop (dueFuel (rxRst l s mid)) (rxRst l s mid))
     else []
+  | .rxBad s mid =>       -- an ACK with an invalid / request code: for S an `ack` (the BAD_RESPONSE NACK is not an outcome of S)
+    if (l.getS s).sockOpen then
+      .tickN l.now 0 :: .ack s mid :: (trRemoved l s mid ++ trDueLoop (dueFuel (rxBad l s mid)) (rxBad l s mid))
+    else []
+  | .connect s => .tickN l.now 0 :: trConnected l s
   | _ => []
 
 def trRun (l : L) : List Ev → List TEv
@@ -531,7 +536,9 @@ def trRun (l : L) : List Ev → List TEv
   | ev :: evs => tr l ev ++ trRun (Msg.step l ev) evs
 
 /-- the scope: the clock does not run backward; a Confirmable is submitted with a positive timeout inside the no-wrap range
-(D7) — WITH or WITHOUT NSTART room, at ANY instant; I/O steps, ACKs and RSTs at any instant. -/
+(D7) — WITH or WITHOUT NSTART room, at ANY instant; I/O steps, ACKs (empty, or with an invalid / request code: `rxBad`), RSTs
+and `coap_session_connected` at any instant.  Not in the scope: NON messages and cancel-by-token (no counterpart in S), `hold` /
+`disconnect` (as in section (7)). -/
 def EvInF (l : L) : Ev → Prop
   | .setNow t => l.now ≤ t
   | .prepare => True
@@ -541,6 +548,8 @@ def EvInF (l : L) : Ev → Prop
     calcTimeout (l.getS s).atI (l.getS s).atF (l.getS s).arfI (l.getS s).arfF r * 2 ^ (l.getS s).maxRtx < 2 ^ 64
   | .rxAck _ _ => True
   | .rxRst _ _ => True
+  | .rxBad _ _ => True
+  | .connect _ => True
   | _ => False
 
 def RunInF (l : L) : List Ev → Prop
@@ -708,6 +717,48 @@ theorem rx_simF {pu : Prop} {par : Nat → Sess} {P : Nat → Nat → Nat → Pr
   rw [prepareCore_fst]
   exact ⟨h2.1, fun hpu' => runOk_append' _ _ _ (hok1 hpu') (h2.2.1 hpu'), sendsOk_append hso1 h2.2.2⟩
 
+/-- an ACK with an invalid / request code: the ACK branch, one more output that is not an observation -/
+theorem rxBad_eq (l : L) (s mid : Nat) :
+    rxBad l s mid = rxAck l s mid ∨ ∃ o, obsM o = none ∧ rxBad l s mid = (rxAck l s mid).emit o := by
+  unfold rxBad rxAck
+  rcases removeNode l.q.nodes s mid with ⟨sent, rest⟩
+  cases sent with
+  | none => exact Or.inl rfl
+  | some n => exact Or.inr ⟨_, rfl, rfl⟩
+
+theorem rxBad_finv {pu : Prop} {par : Nat → Sess} {P : Nat → Nat → Nat → Prop} (hp : GPar par) (l : L) (s mid : Nat)
+    (hi : FInv pu par P l) (hf : Fut pu l) : FInv pu par P (rxBad l s mid) ∧ Fut pu (rxBad l s mid) := by
+  obtain ⟨hi1, hf1, hk⟩ := removed_finv l s mid hi hf
+  unfold rxBad
+  rcases hrm : removeNode l.q.nodes s mid with ⟨sent, rest⟩
+  rw [hrm] at hi1 hf1 hk
+  cases sent with
+  | none => exact ⟨hi1, hf1⟩
+  | some n =>
+    have := release_finv hp _ s hi1 hf1
+    exact ⟨finv_emit_other _ this.1 ⟨by intros; simp, by intros; simp⟩, this.2.1⟩
+
+theorem rxBad_simF {pu : Prop} {par : Nat → Sess} {P : Nat → Nat → Nat → Prop} (hp : GPar par) (l : L) (ts : TS)
+    (s mid : Nat) (hi : FInv pu par P l) (hf : Fut pu l) (hr : RelF (mxOf par) l ts) :
+    let evs := TEv.tickN l.now 0 :: TEv.ack s mid ::
+      (trRemoved l s mid ++ trDueLoop (dueFuel (rxBad l s mid)) (rxBad l s mid))
+    RelF (mxOf par) (afterRx (rxBad l s mid)) (Timer.run ts evs) ∧ (pu → RunOk ts evs) ∧ SendsOk par P evs := by
+  intro evs
+  obtain ⟨hr1, hok1, hso1⟩ := removed_simF hp l ts s mid false hi hf hr
+  simp only [Bool.false_eq_true, if_false] at hr1 hok1 hso1
+  have hr1' : RelF (mxOf par) (rxBad l s mid) (Timer.run ts (TEv.tickN l.now 0 :: TEv.ack s mid :: trRemoved l s mid)) := by
+    rcases rxBad_eq l s mid with h | ⟨o, ho, h⟩
+    · rw [h]; exact hr1
+    · rw [h]; exact relF_emit_none o ho hr1
+  obtain ⟨hi', hf'⟩ := rxBad_finv hp l s mid hi hf
+  have h2 := dueLoop_simF hp (dueFuel (rxBad l s mid)) (rxBad l s mid) _ hi' hf' hr1'
+  have e : evs = (TEv.tickN l.now 0 :: TEv.ack s mid :: trRemoved l s mid) ++
+      trDueLoop (dueFuel (rxBad l s mid)) (rxBad l s mid) := by simp [evs]
+  rw [e, timer_run_append]
+  unfold afterRx
+  rw [prepareCore_fst]
+  exact ⟨h2.1, fun hpu' => runOk_append' _ _ _ (hok1 hpu') (h2.2.1 hpu'), sendsOk_append hso1 h2.2.2⟩
+
 /-- **step_simF**: EVERY step of M over the alphabet — whatever the NSTART gate does, whatever is due — is matched by the
 S events the code path stands for; and when the step is punctual these S events are punctual -/
 theorem step_simF {pu : Prop} {par : Nat → Sess} {P : Nat → Nat → Nat → Prop} (hp : GPar par) (l : L) (ts : TS) (ev : Ev)
@@ -806,9 +857,22 @@ theorem step_simF {pu : Prop} {par : Nat → Sess} {P : Nat → Nat → Nat → 
     simp only [Msg.step, hso, if_true, tr]
     exact this
   | rxNon s mid tok => exact absurd hok (by simp [EvInF])
-  | rxBad s mid => exact absurd hok (by simp [EvInF])
+  | rxBad s mid =>
+    have hf : Fut pu l := hpu
+    obtain ⟨ca, dq, hg, hle, hdq⟩ := hi.sess s
+    have hso : (l.getS s).sockOpen = true := by rw [hg]; exact (hp s).2.1
+    have := rxBad_simF hp l ts s mid hi hf hr
+    simp only [Msg.step, hso, if_true, tr]
+    exact this
   | hold s => exact absurd hok (by simp [EvInF])
-  | connect s => exact absurd hok (by simp [EvInF])
+  | connect s =>
+    have hf : Fut pu l := hpu
+    have hc0 : Core (mxOf par) l { ts with now := l.now } := hr.core_of
+    obtain ⟨hc2, hd2, hok2, hso2⟩ := connected_sim hp l _ s hi hf hc0
+    have houts := hd2.outs hr.txs hr.nacks
+    simp only [Msg.step, tr, Timer.run, List.foldl_cons, tickN0 ts l.now hr.now, RunOk]
+    exact ⟨⟨Nat.le_of_eq hc2.now, hc2.pend, houts.1, houts.2⟩,
+      fun hpu' => ⟨rel_punctF hr.pend (hf hpu'), hok2⟩, sendsOk_cons (by intro _ _ _ _ he; cases he) hso2⟩
   | disconnect s => exact absurd hok (by simp [EvInF])
 
 /-! ### whole runs -/
@@ -1062,13 +1126,31 @@ theorem noAck_trDueLoop : ∀ (fuel : Nat) (l : L), NoAck (trDueLoop fuel l)
           · exact noAck_trRelease _ _
       · exact noAck_nil
 
-/-- one M event: the `acked` outputs of S grow by one exactly when an arriving ACK finds its message in the send queue -/
+theorem noAck_trConnected (l : L) (s : Nat) : NoAck (trConnected l s) := noAck_trDrain _ _ _
+
+/-- one M event: the `acked` outputs of S grow by one exactly when an arriving ACK (empty: `rxAck`; invalid / request code:
+`rxBad`) finds its message in the send queue — `Sched.remW` on this alphabet -/
 theorem ackS_stepF (mx : Nat → Nat) (s mid : Nat) (l : L) (ts : TS) (ev : Ev) (hr : RelF mx l ts)
-    (hopen : ∀ s', (l.getS s').sockOpen = true) :
-    ackS s mid (Timer.run ts (tr l ev)).outs = ackS s mid ts.outs + ackW s mid l ev := by
+    (hopen : ∀ s', (l.getS s').sockOpen = true) (hok : EvInF l ev) :
+    ackS s mid (Timer.run ts (tr l ev)).outs = ackS s mid ts.outs + remW s mid l ev := by
   cases ev with
+  | rxBad s' m' =>
+    simp only [tr, remW]
+    split
+    · have h2 := (remove_simF mx l ts s' m' hr.pend).2
+      simp only [Timer.run, List.foldl_cons]
+      have h3 := ackS_noAck s mid _ (Timer.step (Timer.step ts (.tickN l.now 0)) (.ack s' m'))
+        (noAck_append (noAck_trRemoved l s' m') (noAck_trDueLoop (dueFuel (rxBad l s' m')) (rxBad l s' m')))
+      simp only [Timer.run] at h3
+      rw [h3, ackS_ack, ackS_tickN, tickN0 ts l.now hr.now]
+      by_cases hf : (removeNode l.q.nodes s' m').1 = none
+      · have := h2.1 hf; simp [hf, this]
+      · have : (premove ts.pend s' m').1 ≠ none := fun h => hf (h2.2 h)
+        simp [hf, this]
+    · rename_i hso
+      exact absurd (hopen s') hso
   | rxAck s' m' =>
-    simp only [tr, ackW]
+    simp only [tr, remW]
     split
     · have h2 := (remove_simF mx l ts s' m' hr.pend).2
       simp only [Timer.run, List.foldl_cons]
@@ -1082,10 +1164,10 @@ theorem ackS_stepF (mx : Nat → Nat) (s mid : Nat) (l : L) (ts : TS) (ev : Ev) 
         simp [hf, this]
     · rename_i hso
       exact absurd (hopen s') hso
-  | setNow t => simp [tr, Timer.run, ackW]
-  | prepare => simp only [tr, ackW, Nat.add_zero]; exact ackS_noAck s mid _ ts (noAck_trDueLoop _ _)
+  | setNow t => simp [tr, Timer.run, remW]
+  | prepare => simp only [tr, remW, Nat.add_zero]; exact ackS_noAck s mid _ ts (noAck_trDueLoop _ _)
   | submit s' c m' r =>
-    simp only [tr, ackW, Nat.add_zero]
+    simp only [tr, remW, Nat.add_zero]
     apply ackS_noAck
     split
     · exact noAck_nil
@@ -1095,17 +1177,18 @@ theorem ackS_stepF (mx : Nat → Nat) (s mid : Nat) (l : L) (ts : TS) (ev : Ev) 
         · exact noAck_cons (by intro _ _ h; cases h) (noAck_cons (by intro _ _ h; cases h) noAck_nil)
         · exact noAck_nil
   | rxRst s' m' =>
-    simp only [tr, ackW, Nat.add_zero]
+    simp only [tr, remW, Nat.add_zero]
     apply ackS_noAck
     split
     · exact noAck_cons (by intro _ _ h; cases h) (noAck_cons (by intro _ _ h; cases h)
         (noAck_append (noAck_trRemoved l s' m') (noAck_trDueLoop _ _)))
     · exact noAck_nil
-  | rxNon _ _ _ => simp [tr, Timer.run, ackW]
-  | rxBad _ _ => simp [tr, Timer.run, ackW]
-  | hold _ => simp [tr, Timer.run, ackW]
-  | connect _ => simp [tr, Timer.run, ackW]
-  | disconnect _ => simp [tr, Timer.run, ackW]
+  | rxNon _ _ _ => exact absurd hok (by simp [EvInF])
+  | hold _ => simp [tr, Timer.run, remW]
+  | connect s' =>
+    simp only [tr, remW, Nat.add_zero]
+    exact ackS_noAck s mid _ ts (noAck_cons (by intro _ _ h; cases h) (noAck_trConnected l s'))
+  | disconnect _ => simp [tr, Timer.run, remW]
 
 theorem finv_open {pu : Prop} {par : Nat → Sess} {P : Nat → Nat → Nat → Prop} (hp : GPar par) {l : L}
     (hi : FInv pu par P l) (s : Nat) : (l.getS s).sockOpen = true := by
@@ -1115,10 +1198,10 @@ theorem finv_open {pu : Prop} {par : Nat → Sess} {P : Nat → Nat → Nat → 
 theorem ackS_runF {par : Nat → Sess} {P : Nat → Nat → Nat → Prop} (hp : GPar par) (s mid : Nat) :
     ∀ (evs : List Ev) (l : L) (ts : TS), FInv False par P l → RelF (mxOf par) l ts → RunInF l evs →
       (∀ s mid r, Ev.submit s true mid r ∈ evs → P s mid (calcTimeout (par s).atI (par s).atF (par s).arfI (par s).arfF r)) →
-      ackS s mid (Timer.run ts (trRun l evs)).outs = ackS s mid ts.outs + ackC s mid l evs := by
+      ackS s mid (Timer.run ts (trRun l evs)).outs = ackS s mid ts.outs + remC s mid l evs := by
   intro evs
   induction evs with
-  | nil => intro l ts _ _ _ _; simp [trRun, Timer.run, ackC]
+  | nil => intro l ts _ _ _ _; simp [trRun, Timer.run, remC]
   | cons ev evs ih =>
     intro l ts hi hr hin hP
     have hP1 : ∀ s mid r, ev = .submit s true mid r →
@@ -1126,18 +1209,18 @@ theorem ackS_runF {par : Nat → Sess} {P : Nat → Nat → Nat → Prop} (hp : 
       fun s mid r h => hP s mid r (by simp [h])
     obtain ⟨hr1, _, _⟩ := step_simF hp l ts ev hi hr hin.1 (fun h => h.elim) hP1
     have hi1 := step_finv hp l ev hi (evInF_evG hin.1) (fun h => h.elim) hP1
-    simp only [trRun, timer_run_append, ackC]
+    simp only [trRun, timer_run_append, remC]
     rw [ih _ _ hi1 hr1 hin.2 (fun s mid r h => hP s mid r (by simp [h])),
-      ackS_stepF (mxOf par) s mid l ts ev hr (finv_open hp hi)]
+      ackS_stepF (mxOf par) s mid l ts ev hr (finv_open hp hi) hin.1]
     omega
 
 /-- **conserve_simF**: `single_outcome` of S read on M through the simulation — for EVERY run over the alphabet, for every
 (session, mid): first transmissions of the Confirmable = outcome NACKs (TOO_MANY_RETRIES / RST with the sent PDU) + ACKs that
-found it + nodes in the send queue -/
+found it (`Sched.remC`: empty ACKs, and ACKs with an invalid / request code) + nodes in the send queue -/
 theorem conserve_simF {par : Nat → Sess} (hp : GPar par) (s mid now0 : Nat) (evs : List Ev) (l0 : L)
     (hi : FInv False par (fun _ _ _ => True) l0) (hr : RelF (mxOf par) l0 (Timer.init now0)) (hin : RunInF l0 evs) :
     tx0C s mid (Msg.run l0 evs).out =
-      nackC s mid (Msg.run l0 evs).out + ackC s mid l0 evs + pendC s mid (Msg.run l0 evs).q.nodes := by
+      nackC s mid (Msg.run l0 evs).out + remC s mid l0 evs + pendC s mid (Msg.run l0 evs).q.nodes := by
   obtain ⟨_, hr2, _, _⟩ := run_simF (pu := False) hp evs l0 (Timer.init now0) hi hr hin (fun h => h.elim)
     (fun _ _ _ _ => trivial)
   have hack := ackS_runF hp s mid evs l0 (Timer.init now0) hi hr hin (fun _ _ _ _ => trivial)
